@@ -30,11 +30,20 @@ pub fn make_file_logger(path: &str) -> std::io::Result<&'static impl Log> {
     LOGGER.get_or_try_init(|| FileLogger::new(path))
 }
 
+/// Targets of the libraries' trace records that print what the client sent byte by byte
+const WIRE_DUMP_TARGETS: [&str; 2] = ["rustls::server", "quiche::h3::qpack::decoder"];
+
 /// At trace level the TLS library prints the handshake messages it receives, the requested
 /// server name included, and that name may start with a client's credentials
-/// (see [`crate::net_utils::scrub_sni`]): such records are not written
-fn is_handshake_dump(metadata: &Metadata) -> bool {
-    metadata.level() == log::Level::Trace && metadata.target().starts_with("rustls::server")
+/// (see [`crate::net_utils::scrub_sni`]); the QPACK decoder of the HTTP/3 library prints
+/// the value of every header field it decodes as a byte array, `proxy-authorization`,
+/// `authorization` and `cookie` included (see [`crate::net_utils::scrub_request`]): such
+/// records are not written
+fn is_wire_dump(metadata: &Metadata) -> bool {
+    metadata.level() == log::Level::Trace
+        && WIRE_DUMP_TARGETS
+            .iter()
+            .any(|x| metadata.target().starts_with(x))
 }
 
 fn write_record(mut w: impl Write, record: &Record) -> std::io::Result<()> {
@@ -51,7 +60,7 @@ fn write_record(mut w: impl Write, record: &Record) -> std::io::Result<()> {
 
 impl Log for StdoutLogger {
     fn enabled(&self, metadata: &Metadata) -> bool {
-        metadata.level() <= log::max_level() && !is_handshake_dump(metadata)
+        metadata.level() <= log::max_level() && !is_wire_dump(metadata)
     }
 
     fn log(&self, record: &Record) {
@@ -79,7 +88,7 @@ impl FileLogger {
 
 impl Log for FileLogger {
     fn enabled(&self, metadata: &Metadata) -> bool {
-        metadata.level() <= log::max_level() && !is_handshake_dump(metadata)
+        metadata.level() <= log::max_level() && !is_wire_dump(metadata)
     }
 
     fn log(&self, record: &Record) {
